@@ -253,3 +253,30 @@ def run(model, col, tier):
         if ob.rule == "R02.7":
             ob.rule = "R15.6"
             col.obligations.append(ob)
+    # ---------------- R15.7 the program's globals are those of all its modules; a function body is its own statements ----
+    from . import c16
+
+    sub = Collector("C16")
+    c16.run(model, sub, "quick")
+    n157 = 0
+    for ob in sub.obligations:
+        if ob.rule == "R16.3" and "Linker.AddModule merges module.Globals" in ob.construct:
+            ob.rule = "R15.7"
+            col.obligations.append(ob)
+            n157 += 1
+    col.floor("R15.7", "linker obligations about globals shared with C16", n157, 2)
+    # what an invocation writes to globals is what the source function's statements write: lowering a function adds no
+    # instruction of its own (an implicit store in every entry point would reset state between invocations)
+    from ..paths import paths as _p157, calls_on_path as _c157
+
+    LOWER_ = "nsl/passes/LowerToIR.py"
+    lvf = model.cls(LOWER_, "LowerToIRVisitor").own_method("v_Function")
+    if lvf is None:
+        raise AnchorMissing(f"{LOWER_}::LowerToIRVisitor.v_Function")
+    fpar = lvf.args.args[1].arg
+    adds = [c for c in ast.walk(lvf) if isinstance(c, ast.Call) and last_attr(c) in ("AddInstruction", "AddInstructionBefore", "AddInstructionAfter", "SetStore")]
+    visits = [c for c in ast.walk(lvf) if isinstance(c, ast.Call) and last_attr(c) in ("v_Visit", "v_Generic", "AcceptVisitor")]
+    foreign = [unparse(c)[:60] for c in visits if not (unparse(c.func.value).startswith(fpar + ".") or unparse(c.func.value) == fpar or (c.args and unparse(c.args[0]).startswith(fpar + ".")))]
+    col.check(not adds and not foreign, "R15.7", f"{LOWER_}::v_Function emits only the function's body", "no instruction is added by the function handler itself; only parts of the function node are visited",
+              f"v_Function adds instructions itself ({[unparse(c)[:50] for c in adds][:2]}) or lowers something that is not part of the function ({foreign[:2]}): every invocation of such a function "
+              "executes stores the source function does not contain (globals are re-initialised on each call)", LOWER_, (adds + visits + [lvf])[0])
